@@ -57,7 +57,7 @@ def check_emitted(inp):
 def check_builder(inp):
     version, allm, answers = inp["version"], inp["all_metrics"], inp["answers"]
     ver = interact.verkey(version)
-    r = interact.run_builder(version, allm, True, answers)
+    r = interact.run_builder(version, allm, True, answers, tty=bool(inp.get("tty")))
     if r["kind"] != "ret":
         return []        # C16's business
     return _judge(ver, interact.expected_prefix(version), "string returned by the interactive builder", r["value"])
@@ -139,8 +139,8 @@ def hyp_part(n_examples, shard):
         allm = draw(st.booleans())
         V = spec.VERS[interact.verkey(version)]
         order = interact.probe_order(version, allm) or list(V.order if allm else V.mandatory)
-        answers, meta = draw(interact.script_strategy(version, allm, order, complete=True))
-        return version, allm, answers
+        answers, meta = draw(interact.script_strategy(version, allm, order, complete=draw(st.sampled_from((True, True, None)))))
+        return version, allm, answers, draw(st.booleans())
 
     from . import c18
 
@@ -172,8 +172,8 @@ def hyp_part(n_examples, shard):
                        classes=("v" + ver, "groups=%d" % ngroups, "with-prior-calls" if pre else "fresh-object"))
             part.check("emitted", check_emitted, {"ver": ver, "s": s, "pre": pre}, hyp=True)
         else:
-            version, allm, answers = c
-            inp = {"version": version, "all_metrics": allm, "answers": answers}
+            version, allm, answers, tty = c
+            inp = {"version": version, "all_metrics": allm, "answers": answers, "tty": tty}
             part.count(inp, nontrivial=allm, classes=("builder", "builder:all" if allm else "builder:mandatory"))
             part.check("builder", check_builder, inp, hyp=True)
     runner.run_hyp(part, t, "C08.hyp")
